@@ -500,6 +500,13 @@ impl JoinPlanner {
             return ir;
         }
 
+        // The inputs of a Union are alternatives (the clauses of a multi-clause
+        // head): each is planned on its own. One join graph over the scans of all
+        // branches would join the alternatives with each other.
+        if Self::contains_union(&ir) {
+            return self.plan_below_union(ir);
+        }
+
         // Only optimize if there are joins
         if !Self::has_joins(&ir) {
             return ir;
@@ -533,6 +540,93 @@ impl JoinPlanner {
 
         // Rebuild IR with optimal join order
         self.rebuild_ir_with_order(&ir, &graph, &optimal_jst)
+    }
+
+    /// Check if IR contains a Union anywhere
+    fn contains_union(ir: &IRNode) -> bool {
+        match ir {
+            IRNode::Union { .. } => true,
+            IRNode::Scan { .. } | IRNode::HnswScan { .. } => false,
+            IRNode::Map { input, .. }
+            | IRNode::Filter { input, .. }
+            | IRNode::Distinct { input }
+            | IRNode::Aggregate { input, .. }
+            | IRNode::Compute { input, .. }
+            | IRNode::FlatMap { input, .. } => Self::contains_union(input),
+            IRNode::Join { left, right, .. }
+            | IRNode::Antijoin { left, right, .. }
+            | IRNode::JoinFlatMap { left, right, .. } => {
+                Self::contains_union(left) || Self::contains_union(right)
+            }
+        }
+    }
+
+    /// Plan the children of a node that has a Union at or below it, leaving the
+    /// node itself (and the Union) in place.
+    fn plan_below_union(&self, ir: IRNode) -> IRNode {
+        let plan = |node: Box<IRNode>| Box::new(self.plan_joins(*node));
+        match ir {
+            IRNode::Union { inputs } => IRNode::Union {
+                inputs: inputs.into_iter().map(|i| self.plan_joins(i)).collect(),
+            },
+            IRNode::Map {
+                input,
+                projection,
+                output_schema,
+            } => IRNode::Map {
+                input: plan(input),
+                projection,
+                output_schema,
+            },
+            IRNode::Filter { input, predicate } => IRNode::Filter {
+                input: plan(input),
+                predicate,
+            },
+            IRNode::Distinct { input } => IRNode::Distinct { input: plan(input) },
+            IRNode::Aggregate {
+                input,
+                group_by,
+                aggregations,
+                output_schema,
+            } => IRNode::Aggregate {
+                input: plan(input),
+                group_by,
+                aggregations,
+                output_schema,
+            },
+            IRNode::Compute { input, expressions } => IRNode::Compute {
+                input: plan(input),
+                expressions,
+            },
+            IRNode::Join {
+                left,
+                right,
+                left_keys,
+                right_keys,
+                output_schema,
+            } => IRNode::Join {
+                left: plan(left),
+                right: plan(right),
+                left_keys,
+                right_keys,
+                output_schema,
+            },
+            IRNode::Antijoin {
+                left,
+                right,
+                left_keys,
+                right_keys,
+                output_schema,
+            } => IRNode::Antijoin {
+                left: plan(left),
+                right: plan(right),
+                left_keys,
+                right_keys,
+                output_schema,
+            },
+            // Leaves, and the flat-map forms whose closures fix their input layout
+            other => other,
+        }
     }
 
     /// Extract head variables from the top-level IR operation above the joins.
